@@ -7,7 +7,10 @@
 
 package ssa
 
-import "go/types"
+import (
+	"go/constant"
+	"go/types"
+)
 
 // InlineOptions selects the calls to inline.
 type InlineOptions struct {
@@ -624,7 +627,7 @@ func threadNilTest(f *Function, k *BasicBlock) bool {
 	}
 	cmp, ok := iff.Cond.(*BinOp)
 	if !ok || cmp.block != k || len(*cmp.Referrers()) != 1 {
-		return false
+		return threadConstEdges(f, k)
 	}
 	var phis []*Phi
 	for _, ins := range k.Instrs[:len(k.Instrs)-2] {
@@ -827,40 +830,67 @@ func removeUnreachable(f *Function) {
 	f.Blocks = kept
 }
 
-
 // threadConstEdges: partial threading. k: φ...; c = φ op const; if c. An incoming edge whose φ operand is
 // a constant decides the test; it is sent straight to the successor, provided that successor has no φ-nodes
 // and uses no φ of k. If a single edge remains, the φ-nodes of k collapse to their operand.
 func threadConstEdges(f *Function, k *BasicBlock) bool {
-	if len(k.Instrs) < 3 || len(k.Preds) < 2 || len(k.Succs) != 2 || k.Succs[0] == k.Succs[1] {
+	if len(k.Instrs) < 2 || len(k.Preds) < 2 || len(k.Succs) != 2 || k.Succs[0] == k.Succs[1] {
 		return false
 	}
 	iff, ok := k.Instrs[len(k.Instrs)-1].(*If)
 	if !ok {
 		return false
 	}
-	cmp, ok := iff.Cond.(*BinOp)
-	if !ok || cmp.block != k || len(*cmp.Referrers()) != 1 || k.Instrs[len(k.Instrs)-2] != Instruction(cmp) {
-		return false
-	}
 	var phis []*Phi
-	for _, ins := range k.Instrs[:len(k.Instrs)-2] {
-		p, ok := ins.(*Phi)
-		if !ok {
-			return false
-		}
-		phis = append(phis, p)
-	}
 	var tested *Phi
 	var kc *Const
-	if p, ok := cmp.X.(*Phi); ok && p.block == k {
-		tested = p
-		kc, _ = cmp.Y.(*Const)
-	} else if p, ok := cmp.Y.(*Phi); ok && p.block == k {
-		tested = p
-		kc, _ = cmp.X.(*Const)
+	var cmp *BinOp
+	op := "=="
+	if bp, isPhi := iff.Cond.(*Phi); isPhi && bp.block == k {
+		// "if helper(x)" with a boolean result: the branch is on the φ itself, i.e. φ == true
+		for _, ins := range k.Instrs[:len(k.Instrs)-1] {
+			p, ok := ins.(*Phi)
+			if !ok {
+				return false
+			}
+			phis = append(phis, p)
+		}
+		tested = bp
+		kc = NewConst(constant.MakeBool(true), bp.Type())
+		n := 0
+		for _, u := range *bp.Referrers() {
+			if u != Instruction(iff) {
+				n++
+			}
+		}
+		if n > 0 {
+			return false
+		}
+	} else {
+		if len(k.Instrs) < 3 {
+			return false
+		}
+		var ok bool
+		cmp, ok = iff.Cond.(*BinOp)
+		if !ok || cmp.block != k || len(*cmp.Referrers()) != 1 || k.Instrs[len(k.Instrs)-2] != Instruction(cmp) {
+			return false
+		}
+		for _, ins := range k.Instrs[:len(k.Instrs)-2] {
+			p, ok := ins.(*Phi)
+			if !ok {
+				return false
+			}
+			phis = append(phis, p)
+		}
+		if p, ok := cmp.X.(*Phi); ok && p.block == k {
+			tested = p
+			kc, _ = cmp.Y.(*Const)
+		} else if p, ok := cmp.Y.(*Phi); ok && p.block == k {
+			tested = p
+			kc, _ = cmp.X.(*Const)
+		}
+		op = cmp.Op.String()
 	}
-	op := cmp.Op.String()
 	if tested == nil || kc == nil || (op != "==" && op != "!=") {
 		return false
 	}
@@ -888,7 +918,7 @@ func threadConstEdges(f *Function, k *BasicBlock) bool {
 		var rands []*Value
 		for _, p := range phis {
 			for _, u := range *p.Referrers() {
-				if u == Instruction(cmp) {
+				if (cmp != nil && u == Instruction(cmp)) || u == Instruction(iff) {
 					continue
 				}
 				if up, isPhi := u.(*Phi); isPhi {
@@ -970,7 +1000,6 @@ func threadConstEdges(f *Function, k *BasicBlock) bool {
 	}
 	return true
 }
-
 
 // mergePhiJump folds a block that holds only φ-nodes and a jump into its successor, when those φ-nodes are
 // used by nothing but the successor's φ-nodes on that very edge: the successor then merges the original
